@@ -260,20 +260,60 @@ func ReplayTerms(o *Obligation) []NamedTerm {
 	return out
 }
 
+func skolemizeGoal(g *Term) (*Term, []*Term) {
+	var ws []*Term
+	var rec func(t *Term) *Term
+	rec = func(t *Term) *Term {
+		switch {
+		case t.Op == "forall":
+			m := map[int]*Term{}
+			for _, v := range t.Bound {
+				w := Fresh("w$"+strings.SplitN(strings.Trim(v.Name, "|"), "?", 2)[0], v.Sort)
+				ws = append(ws, w)
+				m[v.id] = w
+			}
+			return rec(Subst(t.Args[0], m))
+		case t.Op == "=>":
+			return Implies(t.Args[0], rec(t.Args[1]))
+		case t.Op == "and":
+			// conjunctions are left alone below this point (their quantifiers stay)
+			return t
+		}
+		return t
+	}
+	return rec(g), ws
+}
+
 // ObligationScript renders the SMT script for one obligation.
 func ObligationScript(o *Obligation) (string, []string) {
+	return obligationScript(o, true)
+}
+
+// ObligationScriptPlain leaves out the optional extra assumptions (earlier clauses of the same conjunction).
+func ObligationScriptPlain(o *Obligation) (string, []string) {
+	return obligationScript(o, false)
+}
+
+func obligationScript(o *Obligation, withExtra bool) (string, []string) {
 	var asserts []*Term
 	if o.exec != nil {
 		asserts = append(asserts, o.exec.globalAssumes...)
 		asserts = append(asserts, o.exec.assumes[:o.NAssume]...)
 	}
-	asserts = append(asserts, o.Extra...)
+	if withExtra {
+		asserts = append(asserts, o.Extra...)
+	}
+	named := ReplayTerms(o)
 	if o.Cover {
 		asserts = append(asserts, o.Goal)
 	} else {
-		asserts = append(asserts, Not(o.Goal))
+		// skolemise the outermost universal quantifiers of the goal: reach => forall xs. B  becomes  reach && !B[ws]
+		goal, ws := skolemizeGoal(o.Goal)
+		asserts = append(asserts, Not(goal))
+		for i, w := range ws {
+			named = append(named, NamedTerm{fmt.Sprintf("rp_w_%d_%s", i, strings.Trim(strings.NewReplacer("?", "_", "|", "", "!", "_").Replace(w.Name), "_")), w})
+		}
 	}
-	named := ReplayTerms(o)
 	var names []string
 	for _, nt := range named {
 		names = append(names, nt.Name)
